@@ -318,18 +318,29 @@ def q3_query_matching(ck):
     tb = TermBuilder(prog, b)
     maps = []
     for bb, t in live_calls(b):
-        if callee_name(t).endswith("Option::<T>::map"):
+        if callee_name(t).endswith("Option::<T>::map") or callee_name(t).endswith("Option::<T>::is_some_and"):
             a = [tb.operand(x) for x in t["args"]]
             if a[0][0] == "field" and a[0][1] == ("param", 1) and a[1][0] == "agg" and a[1][1].startswith("closure:"):
-                maps.append((a[0][2], a[1][1][len("closure:"):], bb, t))
+                # form 1: field.map(|x| x == attr).unwrap_or(true) negated;  form 2: field.is_some_and(|x| x != attr)
+                maps.append((a[0][2], a[1][1][len("closure:"):], bb, t, callee_name(t).endswith("is_some_and")))
     ck.floor("Q3", len(maps), 8, "field tests in MoveQuery::test")
     adt = ck.adt("weechess_core::moves::MoveQuery", "Q3")
     fields = [f["name"] for f in adt["variants"][0]["fields"]]
     tested = set()
     test_blocks = []
-    for fld, cname, bb, t in maps:
+    for fld, cname, bb, t, negated in maps:
         cb = prog.body(cname)
         rt = return_term(prog, cb)
+        if negated and rt is not None:
+            # the closure states the mismatch: turn it into the match predicate
+            if rt[0] == "bin" and rt[1] == "Ne":
+                rt = ("bin", "Eq") + tuple(rt[2:])
+            elif rt[0] == "call" and rt[1].endswith("::ne"):
+                rt = ("call", rt[1][:-2] + "eq", rt[2])
+            elif rt[0] == "un" and rt[1] == "Not":
+                rt = rt[2]
+            else:
+                rt = ("opaque", "mismatch predicate of unrecognised form")
         ups = closure_upvar_terms(prog, b, cname, tb) or []
         m_up = [i for i, u in enumerate(ups) if u == ("param", 2)]
         mterm = ("field", ("param", 1), str(m_up[0])) if m_up else None
